@@ -151,8 +151,9 @@ class ArffDataReader(Filter[Iterable[str], Iterable[Union[Dense,Sparse]]]):
             elif line[-2:] == ",?":
                 missing = True
             else:
-                compact = line.translate(self._trans)
-                missing = compact[:2] == '?,' or ',?,' in compact or compact[-2:] == ',?'
+                #the values may be delimited by tabs and a line with a single value has no delimiter at all
+                compact = line.replace('\t',',').translate(self._trans)
+                missing = compact == '?' or compact[:2] == '?,' or ',?,' in compact or compact[-2:] == ',?'
 
             yield line,missing
 
